@@ -287,6 +287,60 @@ def propagate_constant_locals(fnode):
     return True
 
 
+def propagate_slice_locals(fnode):
+    """s = slice(a, b) used only as a subscript in the statements right after its definition  ->  x[a:b]"""
+    changed = False
+
+    def rewrite(stmts):
+        nonlocal changed
+        out = []
+        i = 0
+        while i < len(stmts):
+            st = stmts[i]
+            for fld in ("body", "orelse", "finalbody"):
+                sub = getattr(st, fld, None)
+                if isinstance(sub, list) and sub and isinstance(sub[0], ast.stmt) and not isinstance(st, (ast.FunctionDef, ast.ClassDef)):
+                    setattr(st, fld, rewrite(sub))
+            if isinstance(st, ast.Assign) and len(st.targets) == 1 and isinstance(st.targets[0], ast.Name) and isinstance(st.value, ast.Call) and U(st.value.func) == "slice" \
+                    and 1 <= len(st.value.args) <= 3 and not st.value.keywords:
+                nm = st.targets[0].id
+                a = st.value.args
+                sl = ast.Slice(lower=None if len(a) == 1 else (None if U(a[0]) == "None" else a[0]), upper=(a[0] if len(a) == 1 else (None if U(a[1]) == "None" else a[1])),
+                               step=(a[2] if len(a) == 3 and U(a[2]) != "None" else None))
+                # every use in the function must be `X[nm]`, and all of them in the statements directly following
+                uses = [x for x in walk_own(fnode) if isinstance(x, ast.Name) and x.id == nm and isinstance(x.ctx, ast.Load)]
+                j = i + 1
+                covered = 0
+                while j < len(stmts) and any(isinstance(x, ast.Name) and x.id == nm for x in ast.walk(stmts[j])):
+                    covered += sum(1 for x in ast.walk(stmts[j]) if isinstance(x, ast.Name) and x.id == nm and isinstance(x.ctx, ast.Load))
+                    j += 1
+                stores = sum(1 for x in walk_own(fnode) if isinstance(x, ast.Name) and x.id == nm and isinstance(x.ctx, ast.Store))
+                if uses and covered == len(uses) and stores == 1:
+                    class S(ast.NodeTransformer):
+                        def visit_Subscript(self, n):
+                            self.generic_visit(n)
+                            if isinstance(n.slice, ast.Name) and n.slice.id == nm:
+                                n.slice = copy.deepcopy(sl)
+                            return n
+                    ok = True
+                    new_next = []
+                    for k in range(i + 1, j):
+                        t = S().visit(copy.deepcopy(stmts[k]))
+                        if any(isinstance(x, ast.Name) and x.id == nm for x in ast.walk(t)):
+                            ok = False
+                        new_next.append(t)
+                    if ok:
+                        out += new_next
+                        i = j
+                        changed = True
+                        continue
+            out.append(st)
+            i += 1
+        return out
+    fnode.body = rewrite(fnode.body)
+    return changed
+
+
 def propagate_tuple_locals(fnode):
     """a local bound exactly once to a tuple / list display and only ever read as NAME[<constant index>] or unpacked whole
     (`a, b, c = NAME`) is replaced element-wise"""
@@ -330,6 +384,10 @@ def propagate_tuple_locals(fnode):
                     for i in range(n_el):
                         reads[i] += 1
                     continue
+                if isinstance(p, ast.Starred) and isinstance(par.get(p), ast.Call) and p in par[p].args:      # g(*NAME)
+                    for i in range(n_el):
+                        reads[i] += 1
+                    continue
                 ok = False
                 break
         if ok and sum(reads) > 0 and all(r <= 1 or _cheap(el) or isinstance(el, ast.Subscript) for r, el in zip(reads, d.value.elts)):
@@ -353,6 +411,17 @@ def propagate_tuple_locals(fnode):
             if isinstance(n.value, ast.Name) and n.value.id in use and isinstance(n.targets[0], (ast.Tuple, ast.List)):
                 n.value = copy.deepcopy(use[n.value.id].value)
                 return n
+            self.generic_visit(n)
+            return n
+
+        def visit_Call(self, n):
+            args = []
+            for a in n.args:
+                if isinstance(a, ast.Starred) and isinstance(a.value, ast.Name) and a.value.id in use:
+                    args += [copy.deepcopy(x) for x in use[a.value.id].value.elts]
+                else:
+                    args.append(a)
+            n.args = args
             self.generic_visit(n)
             return n
     P().visit(fnode)
@@ -1067,7 +1136,7 @@ def has_constant_structure(repo, f):
             return True
         if isinstance(n, ast.Call) and isinstance(n.func, (ast.Lambda,)):
             return True
-        if isinstance(n, ast.Call) and U(n.func) in ("functools.reduce", "reduce"):
+        if isinstance(n, ast.Call) and U(n.func) in ("functools.reduce", "reduce", "slice"):
             return True
         if isinstance(n, ast.Call) and isinstance(n.func, ast.Attribute) and n.func.attr == "update" and isinstance(n.func.value, ast.Attribute) and n.func.value.attr == "__dict__":
             return True
@@ -1102,6 +1171,9 @@ def partial_evaluate(repo, max_rounds=4):
             if propagate_constant_locals(f.node):
                 ch = True
                 steps.append("constants")
+            if propagate_slice_locals(f.node):
+                ch = True
+                steps.append("slices")
             if steps and propagate_tuple_locals(f.node):
                 ch = True
                 steps.append("tuples")
